@@ -197,14 +197,15 @@ class Note(object):
         >>> a
         'A-4'
         """
-        (old, o_octave) = (self.name, self.octave)
+        old = int(self)
         self.name = intervals.from_shorthand(self.name, interval, up)
+        # Keep the new pitch within an octave of the old one on the side the
+        # note moved to, however the new name is spelled (B# and Cb cross the
+        # octave line, six flats may come back as six sharps)
         if up:
-            if self < Note(old, o_octave):
-                self.octave += 1
+            self.octave -= (int(self) - old) // 12
         else:
-            if self > Note(old, o_octave):
-                self.octave -= 1
+            self.octave += (old - int(self)) // 12
 
     def from_int(self, integer):
         """Set the Note corresponding to the integer.
